@@ -2843,6 +2843,8 @@ def allclose_units(actual, desired, rtol=1e-7, atol=0, **kwargs):
     # Create a copy to ensure this function does not alter input arrays
     act = unyt_array(actual)
     des = unyt_array(desired)
+    # a bare atol is in the units desired was given in
+    des_units = des.units
 
     try:
         des = des.in_units(act.units)
@@ -2854,9 +2856,18 @@ def allclose_units(actual, desired, rtol=1e-7, atol=0, **kwargs):
         raise RuntimeError(f"Units of rtol ({rt.units}) are not dimensionless")
 
     if not isinstance(atol, unyt_array):
-        at = unyt_quantity(atol, des.units)
+        at = unyt_quantity(atol, des_units)
     else:
         at = atol
+
+    if at.units.base_offset or act.units.base_offset:
+        # atol is a temperature difference: only the size of the degree
+        # matters, the zero point of degC or degF must not be applied to it
+        if at.units.dimensions != act.units.dimensions:
+            return False
+        at = unyt_array(
+            at.value * (at.units.base_value / act.units.base_value), act.units
+        )
 
     try:
         at = at.in_units(act.units)
